@@ -651,6 +651,44 @@ pub fn gen_valid(r: &mut Rng) -> Desc {
   }
 }
 
+/// spread the magnitudes of a valid descriptor over each field's whole range (many decades)
+pub fn widen(r: &mut Rng, d: &mut Desc) {
+  let lg = |r: &mut Rng, lo: f64, hi: f64| {
+    let v = r.log_range(lo, hi);
+    if r.coin() {
+      (v * 1e4).round() / 1e4
+    } else {
+      v
+    }
+  };
+  for k in 0..10 {
+    if r.below(3) != 0 {
+      continue;
+    }
+    match k {
+      0 => d.p_power = lg(r, 1e-6, 1e6),
+      1 => d.length = lg(r, 1.0, 1e6),
+      2 => d.p_waist = lg(r, 1.0, 1e6),
+      3 => d.signal.waist = lg(r, 1.0, 1e6),
+      4 => d.signal.wpos = AutoV::Val(lg(r, 1e-3, 1e6) * if r.coin() { -1.0 } else { 1.0 }),
+      5 => d.p_bw = lg(r, 1e-4, 1e3),
+      6 => d.deff = lg(r, 1e-4, 1e4),
+      7 => {
+        if let PolingD::Cfg { period: AutoV::Val(p), .. } = &mut d.poling {
+          *p = lg(r, 1e-2, 1e6);
+        }
+      }
+      8 => d.temp = *r.pick(&[-200.0, -0.00004, 0.00005, 999.99995, 1500.0]),
+      _ => {
+        if let IdlerD::Cfg(b) = &mut d.idler {
+          b.waist = lg(r, 1.0, 1e6);
+          b.wpos = AutoV::Val(-lg(r, 1e-3, 1e6));
+        }
+      }
+    }
+  }
+}
+
 /// the malformed stream of C17: a valid descriptor with one to three boundary / invalid edits
 pub fn gen_malformed(r: &mut Rng) -> (Desc, String) {
   let mut d = gen_valid(r);
@@ -1036,7 +1074,8 @@ fn setup_finite(s: &SPDC) -> Result<(), String> {
 fn physical(d: &Desc) -> bool {
   // at least a micron of crystal and of beam waist, a picometre of bandwidth, a nanowatt of power
   let len = |x: f64| x >= 1.0 && x.is_finite();
-  let mut ok = len(d.length) && len(d.p_waist) && d.p_bw >= 1e-3 && d.p_power >= 1e-6 && len(d.signal.waist) && d.temp > -273.15 && d.temp <= 500.0;
+  // (a vanishing effective nonlinearity is no down-conversion at all: every normalised spectrum is 0/0)
+  let mut ok = len(d.length) && len(d.p_waist) && d.p_bw >= 1e-3 && d.p_power >= 1e-6 && len(d.signal.waist) && d.temp > -273.15 && d.temp <= 500.0 && d.deff.abs() >= 1e-6;
   if let IdlerD::Cfg(b) = &d.idler {
     ok = ok && len(b.waist);
   }
@@ -1198,9 +1237,7 @@ fn fields_rounded(s: &SPDC, c: &SPDCConfig) -> Result<(), String> {
 
 fn fields_sig(why: &str) -> &'static str {
   let one = why.matches("field=").count() == 1;
-  if one && why.contains("field=idler.waist_position_um") {
-    "as_config/idler-waist-position-unrounded"
-  } else if one && why.contains("field=periodic_poling.apodization.fwhm_um") {
+  if one && why.contains("field=periodic_poling.apodization.fwhm_um") {
     "as_config/gaussian-fwhm-unrounded"
   } else if one && why.contains("field=pump.spectrum_threshold") {
     "as_config/spectrum-threshold"
@@ -1235,9 +1272,31 @@ fn spectra_finite(s: &SPDC) -> Result<(), String> {
   if !s.counts_singles_signal(range, integ).value_unsafe.is_finite() {
     bad.push("counts_singles_signal");
   }
+  // the accessors normalised to the optimum setup's centre
+  if sp.jsi_normalized_range(range).iter().any(|x| !x.is_finite()) {
+    bad.push("jsi_normalized");
+  }
+  if sp.jsi_singles_normalized_range(range).iter().any(|x| !x.is_finite()) {
+    bad.push("jsi_singles_normalized");
+  }
   let delays: Vec<spdcalc::Time> = vec![-1e-13 * S, 0. * S, 1e-13 * S];
   if s.hom_rate_series(delays, range, integ).iter().any(|x| !x.is_finite()) {
     bad.push(if all_zero { "hom_rate_series(zero-spectrum)" } else { "hom_rate_series" });
+  }
+  let (dt, vis) = s.hom_visibility(range, integ);
+  if !dt.value_unsafe.is_finite() || !vis.is_finite() {
+    bad.push(if all_zero { "hom_visibility(zero-spectrum)" } else { "hom_visibility" });
+  }
+  // the optimum version of a down-conversion inside the frequency cut-off (|ωs − ωi| ≤ ¾ ωp) is
+  // phase-matched at its centre: a centre JSI of exactly 0 means the rates are silently 0
+  let (ws, wi, wp) = (s.signal.frequency().value_unsafe, s.idler.frequency().value_unsafe, s.pump.frequency().value_unsafe);
+  if (ws - wi).abs() <= 0.74 * wp && ((ws + wi) - wp).abs() <= 1e-6 * wp {
+    if let Ok(o) = s.clone().try_as_optimum() {
+      let c = spdcalc::jsa_raw(o.signal.frequency(), o.idler.frequency(), &o, integ).norm_sqr();
+      if c == 0. {
+        bad.push("optimum-centre-dark");
+      }
+    }
   }
   if bad.is_empty() {
     Ok(())
@@ -1259,6 +1318,78 @@ fn k_as_config(ctx: &mut Ctx, s: &SPDC) {
     ctx.k("as_config", &setup_tokens(s), &config_tokens(&c, s));
   } else {
     ctx.k("as_config", &setup_tokens(s), "PANIC");
+  }
+}
+
+/// `math::sigfigs(x, 4)` over many decades, at the i32 / u32 grid limits, on ties, negative, tiny, huge
+fn sigfigs_cases(ctx: &mut Ctx) {
+  let mut xs: Vec<f64> = vec![
+    0.0, -0.0, 0.00005, -0.00005, 0.00004999, 0.00015, 1.00005, -1.00005, 2.5, 1234.56785, 1234.56775,
+    214748.3647, 214748.36475, 214748.3648, 214748.3649, -214748.3648, -214748.3649, 429496.7295, 429496.7296, 429496.73,
+    1e6, 1e9, 123456789.12345678, 9.007199254740993e11, 1e15, 1e300, -1e300, 1e-300, f64::MAX, f64::MIN_POSITIVE,
+    f64::INFINITY, f64::NEG_INFINITY, f64::NAN,
+  ];
+  let n = if ctx.thorough { 20000 } else { 2000 };
+  for _ in 0..n {
+    let v = ctx.rng.log_range(1e-8, 1e12) * if ctx.rng.coin() { -1.0 } else { 1.0 };
+    xs.push(match ctx.rng.below(3) {
+      0 => v,
+      1 => ((v * 1e4).floor() + 0.5) / 1e4, // a tie (or next to one)
+      _ => (v * 1e5).round() / 1e5,
+    });
+  }
+  for x in xs {
+    let got = guard(|| spdcalc::math::sigfigs(x, 4));
+    ctx.k("sigfigs", &fl(x), &got.map(fl).unwrap_or("PANIC".into()));
+    if x.is_finite() && x.abs() < 1e11 {
+      let ok = match got {
+        Some(g) => (g - x).abs() <= 0.5e-4 * (1.0 + 1e-9) + 2.0 * f64::EPSILON * x.abs() && ((g * 1e4).round() / 1e4 == g),
+        None => false,
+      };
+      ctx.s("C16.fields", ok, "sigfigs/rounds-to-4-decimals", &format!("x={:e} got={:?}", x, got));
+    }
+  }
+}
+
+/// every public conversion route setup -> configuration gives the same parts as `as_config()`
+fn part_conversions(s: &SPDC, c1: &SPDCConfig) -> Result<(), String> {
+  use spdcalc::{CrystalConfig, IdlerConfig, PumpConfig, SignalConfig};
+  let mut bad = vec![];
+  if SPDCConfig::from(s.clone()) != *c1 {
+    bad.push("route=SPDCConfig::from".to_string());
+  }
+  if CrystalConfig::from(s.crystal_setup.clone()) != c1.crystal {
+    bad.push("route=CrystalConfig::from(CrystalSetup)".to_string());
+  }
+  let p = PumpConfig::from(s.clone());
+  if p != c1.pump {
+    bad.push(format!("route=PumpConfig::from(SPDC) got={} as_config={}", serde_json::to_string(&p).unwrap_or_default(), serde_json::to_string(&c1.pump).unwrap_or_default()));
+  }
+  let g = SignalConfig::from(s.clone());
+  if g != c1.signal {
+    bad.push(format!("route=SignalConfig::from(SPDC) got={} as_config={}", serde_json::to_string(&g).unwrap_or_default(), serde_json::to_string(&c1.signal).unwrap_or_default()));
+  }
+  let i = IdlerConfig::from(s.clone());
+  if AutoCalcParam::Param(i.clone()) != c1.idler {
+    bad.push(format!("route=IdlerConfig::from(SPDC) got={} as_config={}", serde_json::to_string(&i).unwrap_or_default(), serde_json::to_string(&c1.idler).unwrap_or_default()));
+  }
+  if PeriodicPolingConfig::from(s.pp.clone()) != c1.periodic_poling {
+    bad.push("route=PeriodicPolingConfig::from(PeriodicPoling)".to_string());
+  }
+  if let PeriodicPolingConfig::Config { apodization, .. } = &c1.periodic_poling {
+    if ApodizationConfig::from(s.pp.apodization().clone()) != *apodization {
+      bad.push("route=ApodizationConfig::from(Apodization)".to_string());
+    }
+  }
+  // serde of the setup goes through its configuration
+  match serde_json::to_value(s).ok().zip(serde_json::to_value(c1).ok()) {
+    Some((a, b)) if a == b => {}
+    _ => bad.push("route=serde(SPDC)".to_string()),
+  }
+  if bad.is_empty() {
+    Ok(())
+  } else {
+    Err(bad.join(" ; "))
   }
 }
 
@@ -1399,6 +1530,11 @@ fn c16_case(ctx: &mut Ctx, d: &Desc) {
     },
     Some(Err(e)) => ctx.s("C16.fixpoint", false, "roundtrip/second-conversion-err", &format!("err={:?} {}", e.0, det)),
     None => ctx.s("C16.fixpoint", false, "roundtrip/second-conversion-panic", &det),
+  }
+  match guard(|| part_conversions(&s, &c1)) {
+    Some(Ok(())) => ctx.s("C16.fields", true, "as_config/part-conversions", &det),
+    Some(Err(why)) => ctx.s("C16.fields", false, "as_config/part-conversions", &format!("{} {}", why.replace(' ', "_").replace("_;_", " ; "), det)),
+    None => ctx.s("C16.fields", false, "as_config/part-conversions-panic", &det),
   }
   // JSON is loss-free
   let js = guard(|| {
@@ -1617,7 +1753,7 @@ fn c17_case(ctx: &mut Ctx, d: &Desc, tag: &str, spectra: bool) {
           match guard(|| spectra_finite(s)) {
             Some(Ok(())) => ctx.s("C17.spectra", true, "spectra/finite", &det),
             Some(Err(why)) => {
-              let sig = if why == "hom_rate_series(zero-spectrum)" { "spectra/non-finite/hom-zero-spectrum".to_string() } else { cls("spectra/non-finite") };
+              let sig = if why.split(',').all(|w| w.ends_with("(zero-spectrum)")) { "spectra/non-finite/hom-zero-spectrum".to_string() } else { cls("spectra/non-finite") };
               ctx.s("C17.spectra", false, &sig, &format!("bad={} {}", why, det));
             }
             None => {
@@ -1813,8 +1949,13 @@ pub fn run(ctx: &mut Ctx) {
       d.signal.theta_e = None;
       c16_case(ctx, &d);
     }
-    for _ in 0..ctx.n {
-      let d = gen_valid(&mut ctx.rng);
+    sigfigs_cases(ctx);
+    for k in 0..ctx.n {
+      let mut d = gen_valid(&mut ctx.rng);
+      if k % 4 == 3 {
+        widen(&mut ctx.rng, &mut d);
+        ctx.count("config/widened");
+      }
       c16_case(ctx, &d);
       if ctx.rng.below(4) == 0 {
         defaults_case(ctx, &d);
@@ -1831,6 +1972,29 @@ pub fn run(ctx: &mut Ctx) {
       let d = gen_valid(&mut ctx.rng);
       c17_case(ctx, &d, "none", k < nspec / 2);
     }
+    // strongly non-degenerate down-conversion inside the window: ½ < |ωs − ωi| / ωp < ¾ either way round
+    let nnd = if ctx.thorough { 120 } else { 16 };
+    let mut made = 0;
+    let mut tries = 0;
+    while made < nnd && tries < 50 * nnd {
+      tries += 1;
+      let mut d = gen_valid(&mut ctx.rng);
+      d.kind = *ctx.rng.pick(&[0usize, 1, 1, 8, 9, 10]);
+      let (wlo, whi) = WINDOWS_NM[d.kind];
+      let q = if ctx.rng.coin() { ctx.rng.range(1.15, 1.33) } else { ctx.rng.range(4.05, 7.4) };
+      d.p_wl = (ctx.rng.range(wlo.max(380.), 600.0_f64.max(wlo + 50.)) * 10.).round() / 10.;
+      d.signal.wl = (d.p_wl * q * 100.).round() / 100.;
+      let i_wl = d.signal.wl * d.p_wl / (d.signal.wl - d.p_wl);
+      if !(d.signal.wl >= wlo && d.signal.wl <= whi && i_wl >= wlo && i_wl <= whi) {
+        continue;
+      }
+      d.idler = IdlerD::Auto;
+      d.signal.theta = Some(0.);
+      d.signal.theta_e = None;
+      made += 1;
+      c17_case(ctx, &d, "nondegenerate", true);
+    }
+    ctx.count(&format!("malformed/nondegenerate-made={}", made));
     // both signal angles given, on boundary VALUES of either angle (and neither), x auto/explicit
     // crystal angle x poling; the same pairs on an explicit idler
     let internals = [0.0, -0.0, 1e-300, 1e-9, -1e-9, 1.0, -5.0, 90.0, 400.0, -400.0];
